@@ -687,7 +687,7 @@ class Interp:
         res = None
         for o in reversed(offs):
             v = s.coerce(s.load_raw(r, o, sz), ty)
-            res = v if res is None else s.ite(bv(off, 64) == o, v, res)
+            res = v if res is None else s.ite(bv(off, 64) == o, v, res, 8 * sz)
         return res
 
     def store_sym(s, r, off, v, sz, align):
@@ -703,7 +703,7 @@ class Interp:
                 new = CondVal(z3.Or(bv(off, 64) == o, old.c), s.ite(bv(off, 64) == o, v, old.v))
             else:
                 if isinstance(v, FV) and not isinstance(old, FV): old = s.as_float(old, v.w)
-                new = s.ite(bv(off, 64) == o, v, old)
+                new = s.ite(bv(off, 64) == o, v, old, 8 * sz)
             s.store_raw(r, o, new, sz); r.wlog.append((o, sz))
 
     def addoff(s, a, b):
